@@ -261,12 +261,13 @@ def run(ctx: Ctx) -> None:
 
     r = ctx.rule("R14.list", "listing = str() of each stored instruction, by address")
     gr = m.method("InstructionMemory", "get_representation", own=True)
-    t2 = " ".join(ast.unparse(gr.node).split())
-    r.check("(address, str(instr)) for address, instr in sorted(self.instructions.items()" in t2, "InstructionMemory.get_representation", gr.loc(),
-            "the listing is not (address, str(instruction)) in address order")
+    from ..imemspec import listing_rule
+    listing_rule(ctx, r)
     # str() falls back to __repr__: no class may define a diverging __str__
     for c in m.subclasses(m.cls("RiscvInstruction")):
         r.check("__str__" not in c.methods, f"{c.name}.__str__", c.loc(), f"{c.name} defines __str__: the listing would differ from repr()")
+    from ..operandspec import convert_rule
+    convert_rule(ctx, r)
     # B-type operands printed numerically are taken as pc-relative immediates unchanged
     cl = m.method(pc, "_convert_label_or_imm", own=True)
     t3 = " ".join(ast.unparse(cl.node).split())
@@ -276,6 +277,9 @@ def run(ctx: Ctx) -> None:
     r.floor(40)
 
     idem_rule(ctx)
+    # error messages print the failing instruction: its own text with its own address (both from the same latch)
+    from ..pipelinerules import fault_rule
+    fault_rule(ctx, "R14.err")
 
 
 def idem_rule(ctx: Ctx) -> None:
